@@ -34,11 +34,18 @@ func bytesOf(v value) []value {
 }
 
 func init() {
+	installExternals()
+}
+
+func pruneExternals() {
 	for _, k := range []string{"bytes.Equal", "bytes.IndexByte", "fmt.Sprint", "strconv.Atoi", "strconv.Itoa",
 		"strings.Count", "strings.EqualFold", "strings.Index", "strings.IndexByte", "strings.Replace", "strings.ToLower",
 		"unicode/utf8.DecodeRuneInString", "sort.Ints", "sort.Strings", "sort.Float64s", "os.Getenv"} {
 		delete(externals, k)
 	}
+}
+
+func installExternals() {
 	externals["(*sync.Once).Do"] = func(fr *frame, args []value) value {
 		p := args[0].(*value)
 		done := (*p).(structure)[0].(structure)
@@ -200,6 +207,7 @@ func init() {
 		st := (*p).(structure)
 		return mkString(st[1].([]value))
 	}
+	externals["(*strings.Builder).copyCheck"] = nop
 	externals["unsafe.String"] = func(fr *frame, args []value) value { unsupported("unsafe.String"); return nil }
 	externals["os.Getenv"] = func(fr *frame, args []value) value { return "" }
 	externals["runtime.Callers"] = func(fr *frame, args []value) value { return 0 }
